@@ -5,7 +5,7 @@
 From Coq Require Import String Ascii.
 From Coq Require Import List Arith NArith Lia Bool.
 From Coq Require Import Init.Byte Strings.Byte.
-From Ax Require Import Lib.Bytes Lib.SolAbi Proofs.SolAbiEnc.
+From Ax Require Import Lib.Bytes Lib.SolAbi Proofs.SolAbiEnc Proofs.SolAbiDec.
 Import ListNotations.
 Open Scope N_scope.
 
@@ -37,5 +37,21 @@ Proof.
   unfold spec_size. lia.
 Qed.
 
+(* two messages of the same shape never share their wire bytes: the
+   implemented encoder is injective on well-formed token lists of one type
+   list (a consequence of the round trip, stated for the implementation) *)
+Theorem enc_impl_injective toks1 toks2 out :
+  Forall wf_token toks1 -> Forall wf_token toks2 ->
+  spec_size toks1 < 2 ^ 32 -> spec_size toks2 < 2 ^ 32 ->
+  map type_of toks1 = map type_of toks2 ->
+  enc_impl toks1 = Some out -> enc_impl toks2 = Some out -> toks1 = toks2.
+Proof.
+  intros Hwf1 Hwf2 Hs1 Hs2 Hty E1 E2.
+  pose proof (dec_impl_enc_impl toks1 out Hwf1 Hs1 E1) as D1.
+  pose proof (dec_impl_enc_impl toks2 out Hwf2 Hs2 E2) as D2.
+  rewrite Hty in D1. rewrite D1 in D2. inversion D2. reflexivity.
+Qed.
+
 Print Assumptions enc_spec_length_eq_size.
+Print Assumptions enc_impl_injective.
 Print Assumptions enc_impl_length_eq_size.
